@@ -606,3 +606,11 @@ Proof.
   - inversion H; subst. intros x [].
   - bd H. bd H. inversion H; subst. intros x [<-|Hx]; [eapply run3_first_second; eauto|eauto].
 Qed.
+
+(* the structural rules together *)
+Theorem run3_structural tys sigs p g : run3 tys sigs p = Ok g -> croot3 p = true ->
+  r_index g = true /\ r_child_tags g = true /\ r_first_second g = true /\ r_root_no_edges g = true.
+Proof.
+  intros H C. destruct (run3_index_root _ _ _ _ H) as [A B]. split; [exact A|]. split; [eapply run3_child_tags; eauto|].
+  split; [eapply run3_first_second; eauto|exact B].
+Qed.
